@@ -650,6 +650,29 @@ pub fn families(prop: &str, tier: Tier) -> Vec<Cfg> {
             n.dev = 1;
             n.watchdog_calls = 600;
             v.push(n);
+            // both tables full: eight exchanges waiting for PUBCOMP and seven (then eight) unanswered SUBSCRIBEs hold
+            // up to sixteen consecutive identifiers; the counter comes round to any of them
+            let mut t = Cfg::base("C07-sixteen-identifiers-held-then-counter-comes-round");
+            t.props = vec!["C07"];
+            t.must_reach = vec!["eight QoS 2 exchanges waiting for PUBCOMP"];
+            t.ops = vec![OpK::Sub, OpK::Unsub, OpK::Pub1, OpK::Poll, OpK::Age];
+            t.io = IoMenu::benign();
+            t.broker.fifo = true;
+            t.broker.reorder_window = 1;
+            t.broker.pubcomp_last = true;
+            t.tx = 1024;
+            let mut opening = vec![OpK::Pub2; 8];
+            opening.extend(vec![OpK::Poll; 8]);
+            opening.extend(vec![OpK::Sub; 7]);
+            opening.push(OpK::Age);
+            opening.push(OpK::Sub);
+            t.preludes = vec![opening];
+            t.max_ops = if q { 27 } else { 28 };
+            t.max_conns = 1;
+            t.max_reqs = 18;
+            t.dev = 0;
+            t.watchdog_calls = 900;
+            v.push(t);
             v
         }
         "C11" => {
@@ -714,7 +737,14 @@ pub fn families(prop: &str, tier: Tier) -> Vec<Cfg> {
             d.tx = 512;
             d.max_ops = 5;
             d.dev = 3;
-            vec![a, b, c, d]
+            // whatever kind of error the transport reports (embedded-io knows eighteen), on whatever call
+            let mut e = a.clone();
+            e.family = "C11-every-kind-of-transport-error-then-every-call";
+            e.fault_kinds = 18;
+            e.broker.garbage = false;
+            e.max_ops = if q { 4 } else { 5 };
+            e.max_reqs = 3;
+            vec![a, b, c, d, e]
         }
         "C12" => {
             let mut a = Cfg::base("C12-after-any-failure-or-cancellation");
